@@ -26,3 +26,5 @@ CHECK = GraphCheck(
     nontrivial=nontrivial,
     deciding=["oracle.C06.exact", "oracle.C06.tables"],
 )
+
+CHECK.with_gtests = True
